@@ -6,6 +6,7 @@ import Mathlib.Tactic.Ring
 import Mathlib.Algebra.Ring.Basic
 import Qvnt.Lemmas.Queue
 import Qvnt.Lemmas.GenInt.MacrosDisjoint
+import Qvnt.Lemmas.GenInt.MacrosInv
 import Qvnt.Lemmas.GenInt.processApply_macros
 
 set_option linter.unusedSectionVars false
@@ -15,10 +16,11 @@ variable {R : Type}
 section proc
 variable [Add R] [Sub R] [Mul R] [Neg R] [Div R] [ExprFns R] [AngleFns R]
 
-/-- `process_node` keeps the chunk's definitions apart from the session's -/
-theorem processNode_disjoint (s c c' : Interp R) (n : Node R) (hd : MacrosDisjoint s c)
-    (h : Interp.processNode s c n = .ok c') : MacrosDisjoint s c' := by
-  have same : c'.macros = c.macros → MacrosDisjoint s c' := fun e => by unfold MacrosDisjoint; rw [e]; exact hd
+/-- `process_node` keeps the gate names unique: a definition is added only under a name that neither the session nor the
+chunk has -/
+theorem processNode_inv (s c c' : Interp R) (n : Node R) (hd : MacrosInv s c)
+    (h : Interp.processNode s c n = .ok c') : MacrosInv s c' := by
+  have same : c'.macros = c.macros → MacrosInv s c' := fun e => by unfold MacrosInv; rw [e]; exact hd
   cases n with
   | qreg a k => simp only [Interp.processNode] at h; split at h <;> simp at h; exact same (by rw [← h])
   | creg a k => simp only [Interp.processNode] at h; split at h <;> simp at h; exact same (by rw [← h])
@@ -42,18 +44,31 @@ theorem processNode_disjoint (s c c' : Interp R) (n : Node R) (hd : MacrosDisjoi
       · rename_i hfresh
         split at h
         · simp only [Res.ok.injEq] at h
-          intro p hp
-          rw [← h]
-          simp only [List.any_append, List.any_cons, List.any_nil, Bool.or_false, Bool.or_eq_false_iff]
-          refine ⟨hd p hp, ?_⟩
           have h1 : s.macros.any (fun q => q.1 == name) = false := by
             cases hh : s.macros.any (fun q => q.1 == name) with
             | false => rfl
             | true => rw [hh] at hfresh; simp at hfresh
-          have h2 := (List.any_eq_false.1 h1) p hp
-          have h3 : ¬ (p.1 = name) := by simpa using h2
-          show (name == p.1) = false
-          exact beq_false_of_ne (fun e => h3 e.symm)
+          have h2 : c.macros.any (fun q => q.1 == name) = false := by
+            cases hh : c.macros.any (fun q => q.1 == name) with
+            | false => rfl
+            | true => rw [hh] at hfresh; simp at hfresh
+          unfold MacrosInv KeysNodup at hd ⊢
+          rw [← h]
+          simp only [List.map_append, List.map_cons, List.map_nil] at hd ⊢
+          rw [← List.append_assoc, List.nodup_append]
+          refine ⟨hd, by simp, ?_⟩
+          intro a ha b hb
+          simp only [List.mem_singleton] at hb
+          subst hb
+          rcases List.mem_append.1 ha with ha | ha
+          · rw [List.mem_map] at ha
+            obtain ⟨q, hq, rfl⟩ := ha
+            have := (List.any_eq_false.1 h1) q hq
+            simpa using this
+          · rw [List.mem_map] at ha
+            obtain ⟨q, hq, rfl⟩ := ha
+            have := (List.any_eq_false.1 h2) q hq
+            simpa using this
         · simp at h
       · simp at h
   | ifn lhs rhs body =>
